@@ -7,7 +7,7 @@ KEY = "h1(key.ser()).0@"
 UNIT = Unit(
     name="smtmap", uses="group_core_axioms, novasmt::axiom_tree_total",
     prelude=["core.rs", "raw.rs", "iter.rs"],
-    lemmas=["sums.rs", "iterlem.rs"],
+    lemmas=["sums.rs", "iterlem.rs", "smtmap.rs"],
     items=[
         Raw("use std::marker::PhantomData; use novasmt::FullProof;"),
         TypeItem(SM, "struct", "SmtMapping", subst=[("K: Serialize, V: Serialize + DeserializeOwned", "K: StdSer, V: StdSer"), ("_phantom_k:", "pub _phantom_k:"), ("_phantom_v:", "pub _phantom_v:")],
@@ -21,7 +21,8 @@ pub open spec fn typed_get<V: StdSer>(raw: IMap<Seq<u8>, Seq<u8>>, k: Seq<u8>) -
         Fn(SM, "get", impl="SmtMapping", wrap=W, home="C07", implicit_props=("C09", "C07"),
            requires=[C("valid", f"self.mapping@[{KEY}].len() > 0 ==> V::de(self.mapping@[{KEY}]) is Some",
                        note="tree invariant: every non-empty entry under a typed key decodes (`expect(\"SmtMapping saw invalid data\")` panics otherwise); entries are only ever written by insert")],
-           ensures=[C("typed", f"res == typed_get::<V>(self.mapping@, {KEY})", "C07")],
+           ensures=[C("typed", f"res == typed_get::<V>(self.mapping@, {KEY})", "C07"),
+                    C("view", "res == (if typed_view::<K, V>(self.mapping@).contains_key(*key) { Some(typed_view::<K, V>(self.mapping@)[*key]) } else { None::<V> })", "C07", note="refinement: get reads the typed view")],
            rewrites=[("DROPTIMER",)]),
         Fn(SM, "get_with_proof", impl="SmtMapping", wrap=W, home="C07", implicit_props=("C09", "C07"),
            requires=[C("valid", f"self.mapping@[{KEY}].len() > 0 ==> V::de(self.mapping@[{KEY}]) is Some", note="tree invariant, as for get")],
@@ -36,12 +37,16 @@ pub open spec fn typed_get<V: StdSer>(raw: IMap<Seq<u8>, Seq<u8>>, k: Seq<u8>) -
            rewrites=[("SUB", "self.root_hash().0 == [0; 32]", "arr32_eq(self.root_hash().0, zero_root())")]),
         Fn(SM, "insert", impl="SmtMapping", wrap=W, home="C07", implicit_props=("C09", "C07"),
            ensures=[C("raw", f"final(self).mapping@ == old(self).mapping@.insert({KEY}, val.ser())", "C07", "C02"),
-                    C("reads_back", f"typed_get::<V>(final(self).mapping@, {KEY}) == Some(val)", "C07")],
-           injects=[Inject("end", "proof { val.ser_props(); }")],
+                    C("reads_back", f"typed_get::<V>(final(self).mapping@, {KEY}) == Some(val)", "C07"),
+                    C("typed", "typed_view::<K, V>(final(self).mapping@) == typed_view::<K, V>(old(self).mapping@).insert(key, val)", "C07", "C02",
+                      note="refinement: at the level of the typed view (the Map the other units assume for SmtMapping) insert is map insertion; no other key moves (hash_single collision-free, stdcode decodable)")],
+           injects=[Inject("entry", "let ghost k0 = key; let ghost v0 = val;"), Inject("end", "proof { v0.ser_props(); lemma_typed_insert::<K, V>(old(self).mapping@, k0, v0); }")],
            rewrites=[("DROPTIMER",)]),
         Fn(SM, "delete", impl="SmtMapping", wrap=W, home="C07", implicit_props=("C09", "C07"),
            ensures=[C("raw", f"final(self).mapping@ == old(self).mapping@.insert({KEY}, Seq::<u8>::empty())", "C07"),
-                    C("gone", f"typed_get::<V>(final(self).mapping@, {KEY}) is None", "C07")],
+                    C("gone", f"typed_get::<V>(final(self).mapping@, {KEY}) is None", "C07"),
+                    C("typed", "typed_view::<K, V>(final(self).mapping@) == typed_view::<K, V>(old(self).mapping@).remove(*key)", "C07", note="refinement: delete is map removal at the level of the typed view")],
+           injects=[Inject("entry", "let ghost k0 = *key;"), Inject("end", "proof { lemma_typed_delete::<K, V>(old(self).mapping@, k0); }")],
            rewrites=[("DROPTIMER",), ("SUB", "self.mapping.insert(key.0, Default::default());", "self.mapping.insert(key.0, empty_slice());")]),
         Fn(SM, "val_iter", impl="SmtMapping", wrap=W, home="C07", implicit_props=("C09", "C07", "C16"),
            sig_subst=[("impl Iterator<Item = V> + '_", "Vec<V>")],
